@@ -80,3 +80,7 @@ package netconf
 //@   ensures #framing-1.0 result.1 == nil && v == "1.0" ==> result.0.framedXML === result.0.rawXML ++ "]]>]]>"
 //@   ensures #framing-1.1 result.1 == nil && v == "1.1" ==> result.0.framedXML === "#" ++ decimal(len(result.0.rawXML)) ++ "\n" ++ result.0.rawXML ++ "\n##"
 //@   ensures #unknown-version-unframed result.1 == nil && v != "1.0" && v != "1.1" ==> result.0.framedXML === result.0.rawXML
+
+// ---- C07 ----------------------------------------------------------------------------------------------------------------
+//@ func (*Driver).Close [C07]
+//@   ensures #channel-closed implClosed
